@@ -693,7 +693,7 @@ func notificationContract(rec *mon.Recorder, c int) bool {
 	rng := rec.Rand("c18-notify", c)
 	desc := fmt.Sprintf("case=%d notification_contract=true", c)
 	rec.Current(desc)
-	rounds := rec.N(40, 120)
+	rounds := rec.N(400, 3000)
 	for round := 0; round < rounds; round++ {
 		conn, err := cluster.NewConn(1, "self", "")
 		if err != nil {
